@@ -429,4 +429,75 @@ theorem small_batch_in_order (fl : Flavour) (w : Tape.World) (verbose : Bool) (a
   · intro i hi; rw [himgeq]; exact hfiles i hi
   · rw [hx2]; exact hsf
 
+/-! ### a catalog filled by the tool has no hole: each stored file goes right after the earlier ones -/
+
+/-- **a stored file is appended to the catalog**: on a side whose live entries are exactly the first `n`,
+    a successful `writeFile` puts the new entry in slot `n` and the live entries are then the first `n + 1`;
+    a refused one leaves the first `n` -/
+theorem writeFile_appends {sd : Side} {bat : List Nat} {own : Nat → List Nat} (inv : SideInv sd bat own) (n : Nat) (hn : n ≤ 112) (hseq : Seq n sd)
+    (content : Bytes) (name ext : Str) (kind flag : Nat) (hname : ∀ c ∈ name, c ≠ 0xFF) :
+    (∃ sd', writeFile sd content name ext kind flag = .ok sd' ∧ n < 112 ∧ Seq (n + 1) sd'
+        ∧ slotData sd' n = newRecord name ext kind flag ((chosen bat (reqBlocks content.length)).getD 0 0) (lastBytesOf content.length))
+    ∨ (∃ sd' msg, writeFile sd content name ext kind flag = .raised (.valueError msg) sd' ∧ Seq n sd') := by
+  rcases writeFile_inv inv content name ext kind flag hname with ⟨sd', i0, hw, hi0, hnl, _, hs0, hsj, _⟩ | ⟨sd', msg, hw, _, hs⟩
+  · left
+    have hlive : liveData (slotData sd' i0) := by rw [hs0]; exact newRecord_live _ _ _ _ _ _ hname
+    have hpre := writeFile_first_slot inv content name ext kind flag sd' hw i0 hi0 hnl hlive
+    have hge : n ≤ i0 := by
+      apply Classical.byContradiction
+      intro h
+      exact hnl (hseq.1 i0 (by omega))
+    have hle : i0 ≤ n := by
+      apply Classical.byContradiction
+      intro h
+      exact hseq.2 n (Nat.le_refl _) (by omega) (hpre n (by omega))
+    have hin : i0 = n := by omega
+    subst hin
+    refine ⟨sd', hw, hi0, ⟨?_, ?_⟩, hs0⟩
+    · intro j hj
+      by_cases hji : j = i0
+      · rw [hji]; exact hlive
+      · rw [hsj j (by omega) hji]; exact hseq.1 j (by omega)
+    · intro j hj hj112
+      rw [hsj j hj112 (by omega)]
+      exact hseq.2 j (by omega) hj112
+  · right
+    refine ⟨sd', msg, hw, ⟨?_, ?_⟩⟩
+    · intro j hj
+      have : j < 112 := by omega
+      rw [hs j this]; exact hseq.1 j hj
+    · intro j hj hj112
+      rw [hs j hj112]; exact hseq.2 j hj hj112
+
+/-- the live entries of the side are exactly its first `n`, for some `n ≤ 112` -/
+def Prefix (sd : Side) : Prop := ∃ n, n ≤ 112 ∧ Seq n sd
+
+theorem prefix_preserved : SidePreserved Prefix := by
+  intro sd bat own inv hP content name ext kind flag hname
+  obtain ⟨n, hn, hseq⟩ := hP
+  rcases writeFile_appends inv n hn hseq content name ext kind flag hname with ⟨sd', hw, hn', hs, _⟩ | ⟨sd', msg, hw, hs⟩
+  · rw [hw]; exact ⟨n + 1, by omega, hs⟩
+  · rw [hw]; exact ⟨n, hn, hs⟩
+
+/-- **the catalogs of a created image have no hole**: whatever the batch, on every side of the image
+    `--create` writes the live entries are exactly the first `n` of the catalog — each stored file was
+    appended after the files stored before it on that side, so catalog order (the order of `--list` and
+    `--extract`) is the order in which the files were stored -/
+theorem create_prefix (w : Tape.World) (verbose : Bool) (srcs : List Str) (hs : ∀ src ∈ srcs, CleanSrc src) :
+    ∃ st, performCore w verbose ((List.replicate 4 blankSide).map initFileSystem) srcs = .ok st ∧ ImgOk st.img
+      ∧ ∀ k, k < 4 → Prefix (st.img.getD k []) := by
+  have h0 : ImgAllI (fun _ => Prefix) ((List.replicate 4 blankSide).map initFileSystem) := by
+    intro k hk
+    show Prefix _
+    rw [fresh_getD k hk]
+    exact ⟨0, by omega, fresh_seq⟩
+  obtain ⟨st, hst, hok, hp⟩ := performCore_presI (P := fun _ => Prefix) (fun _ => prefix_preserved) w verbose _ srcs fresh_img_ok h0 hs
+  exact ⟨st, hst, hok, hp⟩
+
+/-- … and `--add` keeps it so: a batch on an image whose catalogs have no hole yields catalogs without hole -/
+theorem batch_prefix (w : Tape.World) (verbose : Bool) (img : Image) (srcs : List Str) (himg : ImgOk img)
+    (hp : ∀ k, k < 4 → Prefix (img.getD k [])) (hs : ∀ src ∈ srcs, CleanSrc src) :
+    ∃ st, performCore w verbose img srcs = .ok st ∧ ImgOk st.img ∧ ∀ k, k < 4 → Prefix (st.img.getD k []) :=
+  performCore_presI (P := fun _ => Prefix) (fun _ => prefix_preserved) w verbose img srcs himg hp hs
+
 end Moto.Disk
